@@ -136,16 +136,21 @@ def r2_terminator_prefixes(ctx):
     ctx.ob("C12.R2", SRC, "DelimSource.read", tail[0] if tail else fn, "a pending tail is emitted at the end of the stream", bool(tail), stmt="flush pending")
 
 
-def r3_framing(ctx):
-    ctx.rule("C12.R3", "DiskSink and DiskSource agree: same '.gz' predicate on the path, one LF appended per line, the reader strips the terminator")
+def gz_predicate(ctx, rule):
     enter = ctx.fn(SNK, "DiskSink.__enter__")
     rd = ctx.fn(SRC, "DiskSource.read")
-    wr = ctx.fn(SNK, "DiskSink.write")
-    wp = [unparse(x.test) for x in walk_shallow(enter) if isinstance(x, ast.If) and "gz" in unparse(x.test)]
-    rp = [unparse(x.test) for x in walk_shallow(rd) if isinstance(x, ast.IfExp) and "gz" in unparse(x.test)]
+    wp = [unparse(x.test) for x in walk_shallow(enter) if isinstance(x, (ast.If, ast.IfExp)) and "gz" in unparse(x.test)]
+    rp = [unparse(x.test) for x in walk_shallow(rd) if isinstance(x, (ast.If, ast.IfExp)) and "gz" in unparse(x.test)]
     norm = lambda s: s.replace("self._filename", "P").replace("self._path", "P")
     ok = len(wp) == 1 and len(rp) == 1 and norm(wp[0]) == norm(rp[0])
-    ctx.ob("C12.R3", SNK, "DiskSink.__enter__", enter, "writer and reader choose gzip by the same predicate on the path", ok, detail={"writer": wp, "reader": rp}, stmt="gz predicate")
+    ctx.ob(rule, SNK, "DiskSink.__enter__", enter, "writer and reader choose gzip by the same predicate on the path", ok, detail={"writer": wp, "reader": rp}, stmt="gz predicate")
+
+
+def r3_framing(ctx):
+    ctx.rule("C12.R3", "DiskSink and DiskSource agree: same '.gz' predicate on the path, one LF appended per line, the reader strips the terminator")
+    gz_predicate(ctx, "C12.R3")
+    rd = ctx.fn(SRC, "DiskSource.read")
+    wr = ctx.fn(SNK, "DiskSink.write")
     wcalls = [c for c in walk_shallow(wr) if isinstance(c, ast.Call) and unparse(c.func) == "self._file.write"]
     lps = [a for a in ancestors(wcalls[0]) if isinstance(a, ast.For)] if wcalls else []
     LV = unparse(lps[0].target) if lps else "line"
